@@ -79,7 +79,15 @@ Inductive setsink :=
 | SIntSet                (* a subset of a literal set of integers: int hashes are not randomised               *)
 | SOtherSink.            (* anything else: the iteration order can reach results                               *)
 
+(* the test that guards `seed = <generated>` in configure_random_seed *)
+Inductive sguard :=
+| GIsNone                (* `seed is None` (or `seed == None`): only a missing seed is replaced                 *)
+| GTruthiness            (* `not seed` / `if seed: .. else`: the legitimate seed 0 is replaced too              *)
+| GUnconditional         (* the generated seed always replaces the requested one                                *)
+| GOtherGuard.           (* any other test                                                                      *)
+
 Inductive entry :=
+| ESeedGuard (site : string) (g : sguard)
 | ERand (site : string) (src : rsrc)
 | ESetIter (site : string) (sink : setsink)
 | EPoolRead (site : string) (attr : string)      (* a read of .pool / .n_pool / .likelihood_chunksize    *)
@@ -101,6 +109,7 @@ Definition mem (x : string) (l : list string) : bool := existsb (String.eqb x) l
 Definition pool_state : list string := ["pool"; "n_pool"; "_pool_configured"]%string.
 Definition entry_ok (allowed : list string) (e : entry) : bool :=
   match e with
+  | ESeedGuard _ g => match g with GIsNone => true | _ => false end
   | ERand _ s => src_ok s
   | ESetIter _ k => sink_ok k
   | EPoolRead site _ => mem site allowed
@@ -121,8 +130,12 @@ Definition seeds_only_in (seed_site : string) (e : entry) : bool :=
   | _ => true
   end.
 
+Definition is_seed_gen (e : entry) : bool := match e with ERand _ SeedFromNumpy => true | _ => false end.
+Definition is_guard (seed_site : string) (e : entry) : bool :=
+  match e with ESeedGuard s GIsNone => String.eqb s seed_site | _ => false end.
 Definition rng_confined (allowed : list string) (seed_site init_site : string) (t : list entry) : bool :=
   forallb (entry_ok allowed) t
+  && (negb (existsb is_seed_gen t) || existsb (is_guard seed_site) t)
   && existsb (is_seed_np seed_site) t && existsb (is_seed_torch seed_site) t
   && existsb (is_seed_call init_site) t
   && forallb (seeds_only_in seed_site) t.
